@@ -55,6 +55,8 @@ def run(ctx):
     ctx.tlc_mc("MC_Overlay.tla", "Overlay_quick_layers.cfg", timeout=600)
     ctx.tlc_mc("MC_Overlay.tla", "Overlay_quick_deep.cfg", timeout=600)
     if ctx.thorough():
+        ctx.tlc_mc("MC_Overlay.tla", "Overlay_layers4.cfg", timeout=2400)
+        ctx.tlc_mc("MC_Overlay.tla", "Overlay_deep6.cfg", timeout=2400)
         ctx.tlc_mc("MC_Overlay.tla", "Overlay_thorough.cfg", timeout=2400)
         ctx.tlc_mc("MC_Overlay.tla", "Overlay_thorough23.cfg", timeout=2400)
         ctx.tlc_mc("MC_Overlay.tla", "Overlay_thorough_moved.cfg", timeout=2400)
@@ -98,5 +100,5 @@ def conformance(ctx):
         "keys are (prefix, suffix) rank pairs; each scenario's rank -> concrete key table is asserted strictly monotone and consistent with SplitPrefixSuffix at start-up",
         "concurrent transactions of the driver touch disjoint keys (what the checker guarantees for committed transactions)",
         "suffix/prefix values >= ixkey.Max are not used (documented limitation of skip-scan targets)",
-        "TLC exhaustive bounds: 2x2 keys, <=2 layers + mutable layer, behaviours of 4 (all initial base layers) / 6 steps in quick; 5 steps and 2x3 keys in thorough",
+        "TLC exhaustive bounds: 2x2 keys, <=2 layers + mutable layer, behaviours of 3 (all initial base layers) / 5 steps in quick; 4-6 steps, 2x3 keys and commits onto a moved-on state (3 layers) in thorough",
     ]
